@@ -153,6 +153,20 @@ theorem C13_bad_memtype_ValueError (memtype : String) (info full : Res (List Nat
     memoryPercent cfg memtype info full cached vm = .error .valueError :=
   bad_memtype cfg cfg_good memtype info full cached vm h
 
+/-- CHARACTERISATION beyond the statement (which speaks of field NAMES, i.e. `str`): an argument
+    that is not a `str` at all (None, 3, b'rss', ('rss',), …) is rejected with ValueError too —
+    `memtype not in valid_types` is list membership, decided by `==`; needs the obligation
+    `cfg_good.pctByMembership` (a `hasattr`-based validation would raise TypeError, and would let
+    `count`, `index`, `_fields`, `__len__`, … through: seeded C13-4). -/
+theorem C13_nonstr_memtype_ValueError (info full : Res (List Nat)) (cached : Option Int) (vm : Int) :
+    memoryPercentArg cfg .other info full cached vm = .error .valueError := by
+  simp [memoryPercentArg, cfg_good.pctByMembership]
+
+/-- … and on `str` arguments `memoryPercentArg` is `memory_percent` (so `C13_percent` and
+    `C13_bad_memtype_ValueError`, which quantify over ALL strings, are the whole story there). -/
+theorem C13_memtype_str (s : String) (info full : Res (List Nat)) (cached : Option Int) (vm : Int) :
+    memoryPercentArg cfg (.str s) info full cached vm = memoryPercent cfg s info full cached vm := rfl
+
 /-! ## memory_full_info -/
 
 /-- **C13_rollup_fallback.** ENOENT or ESRCH on the roll-up file: the per-mapping listing is
